@@ -54,10 +54,14 @@ func checkC02(c *fw.Ctx) {
 		nsign++
 		call := dc.Call
 		// the signed bytes: CanonicalJSON( message minus the excluded members ), helpers transparent
-		keys, nonConst, passed, origin := strippedChain3(call.Common().Args[1], dc.Fr, call.(ssa.Instruction), func(v ssa.Value) bool { return isParam(v, sign, 3) }, map[string][]int{"gmsl.CanonicalJSON": {0}})
+		keys, nonConst, passed, origin := strippedChain3Fam(call.Common().Args[1], dc.Fr, call.(ssa.Instruction), func(v ssa.Value) bool { return isParam(v, sign, 3) }, map[string][]int{"gmsl.CanonicalJSON": {0}}, fw.RegionOf(sign, stopExported))
 		switch {
 		case origin == fw.Unknown || nonConst > 0:
 			c.Undecided("2 message", "SignJSON canonicalises the input minus the excluded members", "the provenance of the signed bytes could not be resolved completely")
+		case len(keys) == 0 && len(deepCallsTo(sign, fw.NameIs("github.com/tidwall/sjson.DeleteBytes"))) > 0:
+			// members are deleted somewhere in SignJSON's region, but not on the value chain the
+			// flow could follow (object state updated in a loop, for instance): no verdict
+			c.Undecided("2 message", "SignJSON canonicalises the input minus the excluded members", "members are deleted in SignJSON's region, but not on the value chain that could be followed")
 		default:
 			c.Check(passed["gmsl.CanonicalJSON"], "2 message", "SignJSON signs CanonicalJSON of the projection", c.P.Pos(call.Pos()), "", "ed25519.Sign is applied to bytes that are not the result of CanonicalJSON")
 			c.Check(origin == fw.Yes && sameSet(keys, want), "2 message", "SignJSON canonicalises the input minus the excluded members", c.P.Pos(call.Pos()), strings.Join(sortedSet(keys), ","), fmt.Sprintf("the signed bytes are not the input message with exactly {signatures, unsigned} deleted (derives from the message only: %v; deleted: %s)", origin, strings.Join(sortedSet(keys), ",")))
@@ -69,7 +73,7 @@ func checkC02(c *fw.Ctx) {
 		nver++
 		call := dc.Call
 		use := call.(ssa.Instruction)
-		c.CheckDerives(call.Common().Args[1], dc.Fr, fw.FlowSpec{IsSource: fw.IsResultOf(canon, 0), All: true, Use: use}, "2 message", "VerifyJSON verifies over CanonicalJSON of the projection", c.P.Pos(call.Pos()), "", "ed25519.Verify is applied to bytes that are not the result of CanonicalJSON")
+		c.CheckDerives(call.Common().Args[1], dc.Fr, fw.FlowSpec{IsSource: fw.IsResultOf(canon, 0), All: true, Use: use, Family: fw.RegionOf(verify, stopExported)}, "2 message", "VerifyJSON verifies over CanonicalJSON of the projection", c.P.Pos(call.Pos()), "", "ed25519.Verify is applied to bytes that are not the result of CanonicalJSON")
 		c.Expect(isParamDeep(call.Common().Args[0], dc.Fr, verify, 2), "3 binding", "VerifyJSON verifies under the caller's public key", c.P.Pos(call.Pos()), "", "the public key given to ed25519.Verify could not be traced to the publicKey parameter")
 		// signature operand: signatures[signingName][keyID]
 		sig, sfr := rootOf(call.Common().Args[2], dc.Fr)
